@@ -225,7 +225,7 @@ class C04(SystematicMixin, E2ECheck):
         'fault_sites': ['s3.' + o for o in gen.S3_OPS] + [
             'src.read', 'fs.open', 'fs.write', 'fs.close', 'fs.rename',
             'fs.read', 'dst.write', 'cb.on_queued', 'cb.on_progress'],
-        'max_faults': 2, 'cancels': 2, 'kbi': True,
+        'max_faults': 2, 'cancels': 2, 'kbi': True, 'lines': True,
         'ends': ['shutdown', 'shutdown', 'shutdown_cancel', 'with',
                  'with_exc', 'with_kbi'],
     }
@@ -513,7 +513,7 @@ class C08(E2ECheck):
         'body_scripts': True, 'stream_scripts': True,
         'stream_hard_faults': True,
         'fault_sites': [s for s in ALL_FAULT_SITES if s != 'cb.on_queued'],
-        'max_faults': 1, 'cancels': 2,
+        'max_faults': 1, 'cancels': 2, 'lines': True,
         'ends': ['shutdown', 'shutdown', 'shutdown_cancel', 'with_exc'],
     }
     rule = ('cases = 1-3 transfers each with 1-3 recording subscribers '
@@ -621,7 +621,7 @@ class C10(E2ECheck):
     profile = {
         'ntransfers': (2, 6), 'limits': 'ones', 'execs': ['thr'],
         'subs': {'max': 1, 'size': True}, 'max_thr': 16, 'max_chunk': 8,
-        'ends': ['shutdown'],
+        'ends': ['shutdown'], 'lines': True,
     }
     rule = ('cases = 2-6 concurrent transfers of mixed types, limits biased '
             'to 1-2, threaded executor, PCT/walk/preempt schedules; oracle '
@@ -684,7 +684,7 @@ class C18(E2ECheck):
         'body_scripts': True, 'stream_scripts': True,
         'stream_hard_faults': True,
         'fault_sites': ALL_FAULT_SITES, 'max_faults': 2, 'cancels': 2,
-        'fresh': True, 'shared_extra': True,
+        'fresh': True, 'shared_extra': True, 'lines': True,
         'rccs': ['when_required', 'when_supported'],
         'ends': ['shutdown', 'shutdown', 'with', 'shutdown_cancel',
                  'with_exc'],
